@@ -24,11 +24,11 @@ variable (T : Stat) {s : Store} {out : CSem2.Outcome} {lp : Bool × Bool} {brk c
 
 theorem sim_dowhile (n : Nat) (hc : ∀ m, m ≤ n → CallOK T m) (ih : ∀ m, m ≤ n → SimStmt T m) (b : Stmt)
     (e : Expr3)
-    (hex : exec T.S.cs T.P (n + 1) s (.dowhile b e) = some out) (hfr : frag T.P T.cnts (.dowhile b e) = true)
+    (hex : exec T.S.cs T.P (n + 1) s (.dowhile b e) = some out) (hfr : frag T.P T.cnts T.W (.dowhile b e) = true)
     (hwt : Stmt.wt T.vtys T.ret lp.1 lp.2 nd (.dowhile b e) = some nd') (hp : Pos T c nd pre)
     (hext : Ext T (funcstmt T.S.cs brk cont (.dowhile b e) c).ctx)
     (hits : T.S.its = pre ++ (funcstmt T.S.cs brk cont (.dowhile b e) c).items ++ post)
-    (inv : SInv T.M0 T.S.cs T.cnts T.σ T.vtys s env M) :
+    (inv : SInv T.M0 T.S.cs T.cnts T.W T.σ T.vtys s env M) :
     Post T lp brk cont (T.at env M pre) (pre ++ (funcstmt T.S.cs brk cont (.dowhile b e) c).items)
       (funcstmt T.S.cs brk cont (.dowhile b e) c).ctx out := by
   simp only [frag, Bool.and_eq_true] at hfr
@@ -109,7 +109,7 @@ theorem sim_dowhile (n : Nat) (hc : ∀ m, m ≤ n → CallOK T m) (ih : ∀ m, 
       rw [hitsC]
     -- iterations, entered at `do_body`
     have hQ : ∀ k, k ≤ n → ∀ (s : Store) (env : Env) (M : Mem) (out : CSem2.Outcome),
-        exec T.S.cs T.P (k + 1) s (.dowhile b e) = some out → SInv T.M0 T.S.cs T.cnts T.σ T.vtys s env M →
+        exec T.S.cs T.P (k + 1) s (.dowhile b e) = some out → SInv T.M0 T.S.cs T.cnts T.W T.σ T.vtys s env M →
         Done T lp brk cont (T.at env M (pre ++ [.lbl none (lblName "do_body" (c.blockid + 1)) []]))
           ((((pre ++ [.lbl none (lblName "do_body" (c.blockid + 1)) []]) ++ ob.items) ++
             [.lbl ob.ctx.jump (lblName "do_cond" (c.blockid + 2)) []]) ++ oe.items ++ oj.items ++
@@ -127,7 +127,7 @@ theorem sim_dowhile (n : Nat) (hc : ∀ m, m ≤ n → CallOK T m) (ih : ∀ m, 
         have hcond : ∀ (s' : Store) (env' : Env) (M' : Mem),
             ((evalE3 T.S.cs (callOf T.P fun s' st' => exec T.S.cs T.P (k + 1) s' st') s' e).bind fun v =>
               if v ≠ 0 then exec T.S.cs T.P (k + 1) s' (.dowhile b e) else some (.normal s')) = some out →
-            SInv T.M0 T.S.cs T.cnts T.σ T.vtys s' env' M' →
+            SInv T.M0 T.S.cs T.cnts T.W T.σ T.vtys s' env' M' →
             Done T lp brk cont (T.at env' M' (((pre ++ [.lbl none (lblName "do_body" (c.blockid + 1)) []]) ++
               ob.items) ++ [.lbl ob.ctx.jump (lblName "do_cond" (c.blockid + 2)) []]))
               ((((pre ++ [.lbl none (lblName "do_body" (c.blockid + 1)) []]) ++ ob.items) ++
